@@ -48,6 +48,7 @@ Fixpoint tr (q : VS.query) : option q0 :=
   | VS.QCall0 VS.F0Error => Some Z0Error
   | VS.QCall0 VS.F0Length => Some Z0Length
   | VS.QArray q => option_map Z0Array (tr q)
+  | VS.QAlt a b => match tr a, tr b with Some a, Some b => Some (Z0Alt a b) | _, _ => None end
   | VS.QReduce src x init upd =>
       match tr src, tr init, tr upd with
       | Some s, Some i, Some u => Some (Z0Reduce s (name_of x) i u)
@@ -157,6 +158,7 @@ Proof.
   - destruct (tr q) eqn:E1; try discriminate. injection H as <-. cbn. eauto.
   - destruct k as [| | |[|c k]| |]; try discriminate; destruct (tr q) eqn:E1; try discriminate; cbn in H; injection H as <-; cbn; eauto.
   - destruct (tr q1) eqn:E1, (tr q2) eqn:E2, (tr q3) eqn:E3; try discriminate. injection H as <-. cbn. repeat split; eauto.
+  - destruct (tr q1) eqn:E1, (tr q2) eqn:E2; try discriminate. injection H as <-. cbn. eauto.
   - destruct h as [h|].
     + destruct (tr q) eqn:E1; try discriminate. destruct (tr h) eqn:E2; try discriminate. injection H as <-. cbn. split; eauto.
     + destruct (tr q) eqn:E1; try discriminate. cbn in H. injection H as <-. cbn. split; eauto.
@@ -352,6 +354,48 @@ Lemma den_reduce_eq nt src x init upd rho v :
   VD.bind (VD.den nt init rho v) (red_v (VD.den nt src rho v) (fun w acc => VD.den nt upd ((x, w) :: rho) acc)).
 Proof. reflexivity. Qed.
 
+(* a // b *)
+Definition alt_s (a b : result) : result :=
+  let '(ws, x) := a in
+  let ts := filter truthy ws in
+  match x with
+  | Some e => (ts, Some e)
+  | None => match ts with [] => b | _ => (ts, None) end
+  end.
+Definition alt_v (a b : VD.result) : VD.result :=
+  let '(ws, x) := a in
+  let ts := filter VS.truthy ws in
+  match x with
+  | Some e => (ts, Some e)
+  | None => match ts with [] => b | _ => (ts, None) end
+  end.
+
+Lemma truthy_emb w : truthy (emb_v w) = VS.truthy w.
+Proof. destruct w as [|[]| | | |]; reflexivity. Qed.
+
+Lemma filter_emb l : filter truthy (map emb_v l) = map emb_v (filter VS.truthy l).
+Proof. induction l as [|w r IH]; [reflexivity|]. cbn [map filter]. rewrite truthy_emb. destruct (VS.truthy w); cbn [map]; rewrite IH; reflexivity. Qed.
+
+Lemma R_alt a a' b b' : R a a' -> R b b' -> R (alt_s a b) (alt_v a' b').
+Proof.
+  intros [[Ea Xa]|(why & pre & post & Sa & Pa & Ea)] Hb; destruct a as [ws x], a' as [ws' x']; cbn [fst snd] in *; unfold alt_s, alt_v.
+  - subst ws. rewrite filter_emb.
+    destruct x as [[[|d] c val| | | | |]|], x' as [[e|lb]|]; cbn [xrel] in Xa; try contradiction.
+    + left. split; [reflexivity|exact Xa].
+    + destruct (filter VS.truthy ws') as [|t ts]; cbn [map]; [exact Hb|]. left. split; [reflexivity|exact I].
+  - subst x ws ws'. rewrite filter_emb, filter_app. right.
+    destruct x' as [x'|].
+    + exists why, (filter VS.truthy pre), (filter VS.truthy post). auto.
+    + destruct (filter VS.truthy pre ++ filter VS.truthy post) as [|t ts] eqn:E.
+      * apply app_eq_nil in E. destruct E as [E1 E2]. rewrite E1. exists why, [], (fst b'). auto.
+      * exists why, (filter VS.truthy pre), (filter VS.truthy post). rewrite <- E. auto.
+Qed.
+
+Lemma den0_alt_eq rs0 a b rho v : den0 rs0 (Z0Alt a b) rho v = alt_s (den0 rs0 a rho v) (den0 rs0 b rho v).
+Proof. cbn [den0]. destruct (den0 rs0 a rho v) as [ws [x|]]; reflexivity. Qed.
+Lemma den_alt_eq nt a b rho v : VD.den nt (VS.QAlt a b) rho v = alt_v (VD.den nt a rho v) (VD.den nt b rho v).
+Proof. cbn [VD.den]. destruct (VD.den nt a rho v) as [ws [x|]]; reflexivity. Qed.
+
 Section Natives.
 Variable nt : VC.natives.
 (* what the link needs from the natives instance: they are Sem's, on embedded values *)
@@ -383,6 +427,8 @@ Proof.
     apply R_rbind; [eapply den_link; eassumption|]. intros w.
     replace (truthy (emb_v w)) with (VS.truthy w) by (destruct w as [|[]| | | |]; reflexivity).
     destruct (VS.truthy w); eapply den_link; eassumption.
+  - (* alt *) destruct (tr q1) eqn:E1, (tr q2) eqn:E2; try discriminate. injection H as <-.
+    rewrite den0_alt_eq, den_alt_eq. apply R_alt; eapply den_link; eassumption.
   - destruct h as [h|].
     + destruct (tr q) eqn:E1; try discriminate. destruct (tr h) eqn:E2; try discriminate. injection H as <-.
       rewrite den0_try_eq, den_try_eq. cbn [option_map].
